@@ -500,6 +500,11 @@ impl tower_service::Service<http::Uri> for SimConnector {
         Box::pin(async move {
             match step.clone() {
                 ConnectStep::Fail(kind) => {
+                    // a refused or unreachable peer is noticed after a moment, rarely at once
+                    let d = this.net.sim.pick(&[0u64, 0, 200, 5_000]);
+                    if d > 0 {
+                        tokio::time::sleep(Duration::from_micros(d)).await;
+                    }
                     this.net.sim.fault("connect-fails");
                     this.attempts.lock().unwrap().push(Attempt { at: now, step, conn_id: None });
                     Err(io::Error::new(kind, "simulated connect failure"))
